@@ -2,7 +2,13 @@ package io.netty.buffer;
 
 public final class Unpooled {
     private Unpooled() {}
+    public static final ByteBuf EMPTY_BUFFER = new ByteBuf(0);
     public static ByteBuf buffer() { return new ByteBuf(256); }
     public static ByteBuf buffer(int cap) { return new ByteBuf(cap); }
+    public static ByteBuf buffer(int cap, int maxCap) { return new ByteBuf(cap); }
+    public static ByteBuf directBuffer() { return new ByteBuf(256); }
+    public static ByteBuf directBuffer(int cap) { return new ByteBuf(cap); }
     public static ByteBuf wrappedBuffer(byte[] b) { return new ByteBuf(b); }
+    public static ByteBuf copiedBuffer(byte[] b) { return new ByteBuf(b); }
+    public static ByteBuf copiedBuffer(CharSequence s, java.nio.charset.Charset cs) { return new ByteBuf(s.toString().getBytes(cs)); }
 }
